@@ -13,8 +13,6 @@ open Gossamer Gossamer.C19
    vcl  like vc, with precommit numbers that disagree with the tree; output `returns` (no panic, no hang)
    `hp`, `ip`, `r`, `s`, `off` only steer how the harness materialises hashes, ids, signatures, headers. -/
 
-def splitOn1 (s : String) (sep : String) : List String := s.splitOn sep
-
 def kvs (ws : List String) : List (String × String) :=
   ws.filterMap (fun w => match w.splitOn "=" with
     | [k, v] => some (k, v)
